@@ -32,7 +32,7 @@ def mu3 : Stmt :=
 /-- `for _, h2 := range hits { if h1 == h2 { continue outer_exit } }` -/
 def inB1 : Stmt :=
           (.seq (.ite (.bin "==" (.var "v4") (.var "v5"))
-              (.seq (.atom ⟨3, .continueS, (.var "outer_exit"), (.int 1)⟩)
+              (.seq (.atom ⟨3, .continueS, (.var "L"), (.int 1)⟩)
               .skip)
               .skip)
           .skip)
@@ -47,7 +47,7 @@ def callB1 : Stmt :=
 def outB1 : Stmt := (.seq (.rangeOver "_" "v5" (.var "v2") inB1) callB1)
 def inB2 : Stmt :=
           (.seq (.ite (.bin "==" (.var "v8") (.var "v9"))
-              (.seq (.atom ⟨3, .continueS, (.var "outer_enter"), (.int 1)⟩)
+              (.seq (.atom ⟨3, .continueS, (.var "L"), (.int 1)⟩)
               .skip)
               .skip)
           .skip)
